@@ -60,6 +60,20 @@ fn check_pos(r: &mut Report, pb: &ProgressBar, model: u64, slack: u64, at: &str)
     p
 }
 
+/// An iterator that is not fused: every third call returns None, then items come again.
+struct Unfused(u32);
+impl Iterator for Unfused {
+    type Item = u32;
+    fn next(&mut self) -> Option<u32> {
+        self.0 += 1;
+        if self.0 % 3 == 0 {
+            None
+        } else {
+            Some(self.0)
+        }
+    }
+}
+
 fn exec_io(sc: &Scenario) -> Report {
     let sc2 = sc.clone();
     let (res, out) = World::run(Config::sequential(sc.seed), move || {
@@ -123,7 +137,9 @@ fn exec_io(sc: &Scenario) -> Report {
                         }
                     }
                     "read_to_string" => {
-                        let (mut s1, mut s2) = (String::new(), String::new());
+                        // into a String that already holds `pre` characters
+                        let pre = op.n0() as usize;
+                        let (mut s1, mut s2) = ("#".repeat(pre), "#".repeat(pre));
                         let before = t.pos;
                         let (r1, r2) = (w.read_to_string(&mut s1), t.read_to_string(&mut s2));
                         if kind_of(&r1) != kind_of(&r2) || r1.as_ref().ok() != r2.as_ref().ok() || s1 != s2 {
@@ -580,7 +596,9 @@ fn exec_iter(sc: &Scenario) -> Report {
                 pb.abandon();
                 model = 3;
             }
-            let mut w = pb.wrap_stream(SimItems::new(sc.seed, n, sc.c("p_pending")));
+            let inner_fin = sc.c("inner_finishes") == 1 && !pre_fin;
+            let src = SimItems::new(sc.seed, n, sc.c("p_pending"));
+            let mut w = pb.wrap_stream(if inner_fin { src.with_on_dry(pb.clone()) } else { src });
             let mut t = SimItems::new(sc.seed, n, sc.c("p_pending"));
             let (waker, _wakes) = counting_waker();
             let mut cx = Context::from_waker(&waker);
@@ -611,8 +629,16 @@ fn exec_iter(sc: &Scenario) -> Report {
                             Poll::Ready(None) => {
                                 if !exhausted {
                                     exhausted = true;
-                                    if !pre_fin {
+                                    if !pre_fin && !inner_fin {
                                         model = expected_after_exhaustion(&sc, model);
+                                    }
+                                    if inner_fin {
+                                        // the source finished the bar itself inside that poll: the
+                                        // adaptor leaves an already finished bar alone
+                                        if pb.message() != "inner" {
+                                            r.violate("C17.finish_on_exhaustion", format!("{at}: the stream abandoned the bar with the message \"inner\" in the poll that returned None; message() is {:?}", pb.message()));
+                                        }
+                                        r.probe("inner_finishes");
                                     }
                                     r.probe("exhausted");
                                 }
@@ -642,7 +668,10 @@ fn exec_iter(sc: &Scenario) -> Report {
             pb.abandon();
             model = 3;
         }
-        let mut w = if sc.c("ctor") == 1 { pb.wrap_iter(SimItems::new(sc.seed, n, 0)) } else { SimItems::new(sc.seed, n, 0).progress_with(pb.clone()) };
+        let inner_fin = sc.c("inner_finishes") == 1 && !pre_fin;
+        let src = SimItems::new(sc.seed, n, 0);
+        let src = if inner_fin { src.with_on_dry(pb.clone()) } else { src };
+        let mut w = if sc.c("ctor") == 1 { pb.wrap_iter(src) } else { src.progress_with(pb.clone()) };
         if pre_fin {
             check_pos(&mut r, &pb, model, 0, "wrapping an already finished bar");
             if !pb.is_finished() {
@@ -714,8 +743,14 @@ fn exec_iter(sc: &Scenario) -> Report {
                     }
                     if hit_end && !exhausted {
                         exhausted = true;
-                        if !pre_fin {
+                        if !pre_fin && !inner_fin {
                             model = expected_after_exhaustion(&sc, model);
+                        }
+                        if inner_fin {
+                            if pb.message() != "inner" {
+                                r.violate("C17.finish_on_exhaustion", format!("{at}: the iterator abandoned the bar with the message \"inner\" in the call that returned None; message() is {:?}", pb.message()));
+                            }
+                            r.probe("inner_finishes");
                         }
                         r.probe("exhausted");
                     }
@@ -730,7 +765,31 @@ fn exec_iter(sc: &Scenario) -> Report {
             }
         }
         let by_value = sc.c("consume_by_value");
-        if by_value > 0 && r.violation.is_none() && r.harness_error.is_none() {
+        if by_value == 5 && r.violation.is_none() && r.harness_error.is_none() {
+            // `.fuse()` on top of the adaptor over an iterator that is NOT fused (it yields items
+            // again after a None): the adaptor must not claim more than the wrapped iterator does
+            let step = call(|| {
+                let pb2 = ProgressBar::hidden();
+                let mut a = Unfused(0).progress_with(pb2).fuse();
+                let mut b = Unfused(0).fuse();
+                let (mut x, mut y) = (vec![], vec![]);
+                for _ in 0..9 {
+                    x.push(a.next());
+                    y.push(b.next());
+                }
+                (x, y)
+            });
+            match step {
+                Err(p) => r.violate("C17.no_panic", format!("fuse() over the adaptor panicked: {p}")),
+                Ok((x, y)) => {
+                    if x != y {
+                        r.violate("C17.transparency", format!("fuse() over the adaptor of an unfused iterator yields {x:?}, over the iterator itself {y:?}"));
+                    }
+                }
+            }
+            r.probe("fuse_over_unfused");
+        }
+        if by_value > 0 && by_value < 5 && r.violation.is_none() && r.harness_error.is_none() {
             // the rest is consumed by internal iteration, which takes the wrapper by value
             // (for_each / count / last / fold): same items, same count, same finish
             let rest = t.len() as u64;
@@ -759,7 +818,7 @@ fn exec_iter(sc: &Scenario) -> Report {
                 Ok(Ok(())) => {
                     if !exhausted {
                         model += rest;
-                        if !pre_fin {
+                        if !pre_fin && !inner_fin {
                             model = expected_after_exhaustion(&sc, model);
                         }
                     }
@@ -1298,7 +1357,7 @@ impl Check for C17 {
                         0 => Op::new("read").n(cap),
                         1 => Op::new("read_vectored").n(cap).n(rng.below(5)).n(rng.below(9)),
                         2 => Op::new("read_exact").n(cap),
-                        3 => Op::new("read_to_string"),
+                        3 => Op::new("read_to_string").n(rng.below(6)),
                         4 => Op::new("fill_buf"),
                         5 => Op::new("consume").n(rng.below(20)),
                         6 => Op::new("write").n(cap),
@@ -1340,10 +1399,12 @@ impl Check for C17 {
                 sc.set("len0", *rng.pick(&[items, items + 5, 0, items / 2]));
                 sc.set("p_pending", *rng.pick(&[0, 300]));
                 if mode == "iter" && rng.chance(1, 3) {
-                    sc.set("consume_by_value", rng.range(1, 4));
+                    sc.set("consume_by_value", rng.range(1, 5));
                 }
                 if rng.chance(1, 6) {
                     sc.set("pre_finished", 1);
+                } else if rng.chance(1, 6) {
+                    sc.set("inner_finishes", 1);
                 }
                 let mut ops = vec![];
                 for _ in 0..rng.range(1, items + 4) {
@@ -1403,6 +1464,7 @@ impl Check for C17 {
             ("n_items", 0),
             ("consume_by_value", 0),
             ("pre_finished", 0),
+            ("inner_finishes", 0),
             ("use_threads", 0),
             ("data_len", 0),
             ("now_jitter_ns", 0),
